@@ -379,7 +379,8 @@ func ZZ_C14_unsatisfied() {
 		form.Set("prompt", "none")
 		satisfied = authOff <= ratOff
 	case 2:
-		form.Set("prompt", "login")
+		// prompt is a space-separated list: "login" must be honoured wherever it appears in it
+		form.Set("prompt", []string{"login", "login consent", "consent login", "select_account login"}[zz.Choice("loginprompt", 4)])
 		satisfied = authOff >= ratOff
 	case 3, 4:
 		hsub := zz.String("hintsub", 6)
